@@ -5,14 +5,17 @@ package c13
 import (
 	"bytes"
 	"context"
-	"encoding/base64"
 	"errors"
 	"fmt"
 	"io"
 	"net/http"
+	"net/http/cookiejar"
 	"net/url"
+	"reflect"
 	"strconv"
+	"strings"
 	"sync"
+	"sync/atomic"
 	"testing"
 	"testing/synctest"
 	"time"
@@ -22,13 +25,107 @@ import (
 	"github.com/google/certificate-transparency-go/jsonclient"
 )
 
-// RespSpec is one scripted answer of the server.
+// RespSpec is one scripted answer of the server: a wire response of Retry.tla and its materialization.
 type RespSpec struct {
-	Cls  string `json:"cls"`  // ok bad200 neterr redir s408 s429 s503 other (the classes of Retry.tla)
+	// ok / bad200: status 200 with a body spelled Sp (wire kind b200; ok iff Sp is a legal spelling of the correct
+	// response); neterr; redir / pres / loop: redirect chains (Var) that convert the POST, preserve it, never end;
+	// s408 s429 s503 other
+	Cls  string `json:"cls"`
+	Sp   string `json:"sp"`   // spelling of the 200 body (ok, bad200, and the target of pres): see bodies_test.go
+	K    int    `json:"k"`    // variation within the spelling
 	Rak  string `json:"rak"`  // Retry-After form: none | secs | date | garbage (sent, but not a valid form)
 	Rav  int    `json:"rav"`  // secs: seconds; date: seconds after the (rounded up) instant of the response
 	Code int    `json:"code"` // concrete status (0: the default of the class)
-	Var  string `json:"var"`  // variant: "", bodyerr, wrapdeadline, wrapcanceled, urldeadline, empty, trunc, via307, via308, noloc; with rak=date on 429/503: "" (IMF-fixdate), rfc850, asctime
+	// variant: neterr: "", bodyerr, wrapdeadline, wrapcanceled, urldeadline; other: noloc; with rak=date on 429/503: ""
+	// (IMF-fixdate), rfc850, asctime; redir / pres / loop: the statuses of the hops, "302", "307-303", ... optionally
+	// followed by "/nobody" (the 3xx responses have no body) or "/body" (they have one; the default)
+	Var string `json:"var"`
+}
+
+// normalize maps the forms of earlier scenario files (variants via307 / via308 of ok, empty / trunc of bad200) to
+// the present ones and fills in defaults.
+func (sp RespSpec) normalize() RespSpec {
+	switch sp.Cls {
+	case "ok":
+		if sp.Var == "via307" || sp.Var == "via308" {
+			sp.Cls, sp.Var = "pres", sp.Var[3:]
+		}
+		if sp.Sp == "" {
+			sp.Sp = "canon"
+		}
+	case "bad200":
+		if sp.Sp == "" {
+			sp.Sp = map[string]string{"": "html", "empty": "empty", "trunc": "trunc"}[sp.Var]
+		}
+		sp.Var = ""
+	}
+	if sp.Cls == "pres" && sp.Sp == "" {
+		sp.Sp = "canon"
+	}
+	return sp
+}
+
+// wire gives the wire kind and spelling under which Retry.tla knows the response.
+func (sp RespSpec) wire() (string, string) {
+	switch sp.Cls {
+	case "ok", "bad200":
+		return "b200", sp.Sp
+	case "pres":
+		return "pres", sp.Sp
+	}
+	return sp.Cls, "-"
+}
+
+// hops gives the statuses of a redirect chain and whether its 3xx responses carry a body.
+func (sp RespSpec) hops() (codes []int, withBody bool) {
+	v, withBody := sp.Var, true
+	if i := strings.IndexByte(v, '/'); i >= 0 {
+		withBody = v[i+1:] != "nobody"
+		v = v[:i]
+	}
+	for _, f := range strings.Split(v, "-") {
+		if c, err := strconv.Atoi(f); err == nil && c >= 300 && c < 400 {
+			codes = append(codes, c)
+		}
+	}
+	if len(codes) == 0 {
+		switch {
+		case sp.Code >= 300 && sp.Code < 400:
+			codes = []int{sp.Code}
+		case sp.Cls == "pres":
+			codes = []int{307}
+		default:
+			codes = []int{302}
+		}
+	}
+	return codes, withBody
+}
+
+// The http.Client the caller hands to the client (Retry.tla: HCKinds).  All of them use the scripted transport.
+var hcKinds = []string{"nil", "plain", "follow", "limit", "jar", "timeout", "uselast", "refuse"}
+
+func follows(hc string) bool { return hc != "uselast" && hc != "refuse" }
+
+// seenClass: the class of the property the submission sees of a scripted answer through a client configured hc -
+// the harness' own reading of the property for its monitors (the specification has its own: Seen).  "refused": a
+// redirect the client's policy refused (the caller's, or net/http's limit of 10 hops on a loop) - the property only
+// says it is not a success.
+func seenClass(hc string, sp RespSpec) string {
+	switch sp.Cls {
+	case "ok", "bad200":
+		return bodyClass(sp.Sp)
+	case "pres", "redir", "loop":
+		switch {
+		case hc == "uselast":
+			return "other"
+		case hc == "refuse" || sp.Cls == "loop":
+			return "refused"
+		case sp.Cls == "pres":
+			return bodyClass(sp.Sp)
+		}
+		return "redir"
+	}
+	return sp.Cls
 }
 
 // CallSpec is one submission of a caller.
@@ -43,6 +140,8 @@ type CallSpec struct {
 
 // Scenario is one client shared by callers 1..len(Callers), each making its calls one after the other.
 type Scenario struct {
+	HC      string       `json:"hc"`   // configuration of the http.Client handed to the client ("" = plain)
+	Opts    string       `json:"opts"` // "" | ua: jsonclient.Options with UserAgent and Authorization
 	Callers [][]CallSpec `json:"callers"`
 }
 
@@ -53,6 +152,7 @@ type PostRec struct {
 	Cls   string   `json:"cls"`
 	Code  int      `json:"code"`
 	Body  string   `json:"body"`
+	Content int    `json:"content"` // what distinguishes the correct response of this exchange from the others of the run
 	Asked int      `json:"asked"` // instant before which the response asked not to retry (-1: nothing asked)
 	Rav   int      `json:"rav"`   // as written to the trace: seconds, or the date as absolute ms
 	Rak   string   `json:"rak"`
@@ -87,6 +187,7 @@ type Snap struct {
 
 // Run is everything observed in one scenario.
 type Run struct {
+	HC     string           `json:"hc"`
 	Calls  []*CallRec       `json:"calls"`
 	Snaps  []Snap           `json:"snaps"`
 	Events []map[string]any `json:"events"` // Call / Post / State / Return in recorder order
@@ -105,9 +206,17 @@ type callState struct {
 	spec   CallSpec
 	next   int
 	rec    *CallRec
+	// the redirect chain in progress: statuses still to come, the answer at its far end to a POST / to another
+	// method, a chain that never ends
+	chain     []int
+	chainBody bool
+	finalPost string
+	finalElse string
+	loop      int
 }
 
 type world struct {
+	hc    string
 	mu    sync.Mutex
 	epoch time.Time
 	run   *Run
@@ -121,13 +230,6 @@ func (w *world) emit(ev map[string]any) {
 	// caller holds w.mu
 	w.run.Events = append(w.run.Events, ev)
 }
-
-const sctTimestamp = 1234567
-
-var okGeneric = `{"v":7}`
-var okAddChain = fmt.Sprintf(`{"sct_version":0,"id":"%s","timestamp":%d,"extensions":"","signature":"%s"}`,
-	base64.StdEncoding.EncodeToString(bytes.Repeat([]byte{0x42}, 32)), sctTimestamp,
-	base64.StdEncoding.EncodeToString([]byte{4, 3, 0, 2, 0xAA, 0xBB}))
 
 func defaultCode(cls string) int {
 	switch cls {
@@ -160,12 +262,63 @@ func (e *errReader) Read(p []byte) (int, error) {
 	return 0, errors.New("scripted: connection reset while reading the body")
 }
 
+// respBody behaves like the body of a net/http response: once closed it cannot be read any more.
+type respBody struct {
+	r      io.Reader
+	closed atomic.Bool
+}
+
+func (b *respBody) Read(p []byte) (int, error) {
+	if b.closed.Load() {
+		return 0, errors.New("http: read on closed response body")
+	}
+	return b.r.Read(p)
+}
+
+func (b *respBody) Close() error { b.closed.Store(true); return nil }
+
 func mkResp(req *http.Request, code int, hdr http.Header, body io.Reader) *http.Response {
 	if hdr == nil {
 		hdr = http.Header{}
 	}
-	return &http.Response{StatusCode: code, Status: fmt.Sprintf("%d %s", code, http.StatusText(code)), Proto: "HTTP/1.1",
-		ProtoMajor: 1, ProtoMinor: 1, Header: hdr, Body: io.NopCloser(body), Request: req, ContentLength: -1}
+	r := &http.Response{StatusCode: code, Status: fmt.Sprintf("%d %s", code, http.StatusText(code)), Proto: "HTTP/1.1",
+		ProtoMajor: 1, ProtoMinor: 1, Header: hdr, Body: &respBody{r: body}, Request: req, ContentLength: -1}
+	if body == nil { // a response without a body, as net/http hands it out
+		r.Body, r.ContentLength = http.NoBody, 0
+	}
+	return r
+}
+
+// hop is one 3xx answer of a redirect chain.
+func (cs *callState) hop(req *http.Request, code int, hdr http.Header) (*http.Response, string) {
+	if hdr == nil {
+		hdr = http.Header{}
+	}
+	hdr.Set("Location", "/redirected")
+	hdr.Add("Set-Cookie", fmt.Sprintf("hop%d=%d; Path=/", cs.caller, code))
+	if !cs.chainBody {
+		return mkResp(req, code, hdr, nil), ""
+	}
+	body := fmt.Sprintf("<a href=\"/redirected\">%d for caller %d request %d</a>", code, cs.caller, cs.next)
+	return mkResp(req, code, hdr, strings.NewReader(body)), body
+}
+
+// redirected answers the follow-up requests of a redirect chain (they are not exchanges of the script).
+func (cs *callState) redirected(req *http.Request) *http.Response {
+	switch {
+	case cs.loop != 0:
+		r, _ := cs.hop(req, cs.loop, nil)
+		return r
+	case len(cs.chain) > 0:
+		code := cs.chain[0]
+		cs.chain = cs.chain[1:]
+		r, _ := cs.hop(req, code, nil)
+		return r
+	case req.Method == http.MethodPost:
+		return mkResp(req, 200, nil, strings.NewReader(cs.finalPost))
+	}
+	// whatever other method arrives here gets a perfectly good answer
+	return mkResp(req, 200, nil, strings.NewReader(cs.finalElse))
 }
 
 // RoundTrip is the scripted server.  It behaves like a transport: a request whose context has ended
@@ -182,13 +335,8 @@ func (w *world) RoundTrip(req *http.Request) (*http.Response, error) {
 	if err := req.Context().Err(); err != nil {
 		return nil, err
 	}
-	okBody := okGeneric
-	if cs.spec.API != "post" {
-		okBody = okAddChain
-	}
-	if req.URL.Path == "/redirected" {
-		// whatever method arrives here gets a perfectly good answer
-		return mkResp(req, 200, nil, bytes.NewReader([]byte(okBody))), nil
+	if strings.HasPrefix(req.URL.Path, "/redirected") {
+		return cs.redirected(req), nil
 	}
 	var sp RespSpec
 	switch {
@@ -199,6 +347,7 @@ func (w *world) RoundTrip(req *http.Request) (*http.Response, error) {
 	default:
 		sp = RespSpec{Cls: "other", Code: 410, Var: "script-exhausted"}
 	}
+	sp = sp.normalize()
 	cs.next++
 	if cs.next > maxPostsPerCall {
 		w.mu.Lock()
@@ -214,7 +363,8 @@ func (w *world) RoundTrip(req *http.Request) (*http.Response, error) {
 	}
 	w.mu.Lock()
 	t := w.ms()
-	pr := PostRec{T: t, Spec: sp, Cls: sp.Cls, Code: code, Asked: -1, Rak: "none"}
+	pr := PostRec{T: t, Spec: sp, Cls: seenClass(w.hc, sp), Code: code, Asked: -1, Rak: "none", Content: 1000*cs.caller + cs.next}
+	cs.chain, cs.loop = nil, 0
 	pr.PreMult, pr.PreNB = w.state()
 	hdr := http.Header{}
 	switch sp.Rak {
@@ -249,29 +399,26 @@ func (w *world) RoundTrip(req *http.Request) (*http.Response, error) {
 	var err error
 	body := ""
 	switch sp.Cls {
-	case "ok":
-		body = okBody
-		switch sp.Var {
-		case "via307", "via308":
-			c := 307
-			if sp.Var == "via308" {
-				c = 308
-			}
-			pr.Code = 200
-			hdr.Set("Location", "/redirected")
-			resp = mkResp(req, c, hdr, bytes.NewReader(nil))
-		default:
-			resp = mkResp(req, 200, hdr, bytes.NewReader([]byte(body)))
+	case "ok", "bad200":
+		body = spellBody(cs.spec.API, sp.Sp, pr.Content, sp.K)
+		resp = mkResp(req, 200, hdr, strings.NewReader(body))
+	case "redir", "pres", "loop":
+		// a chain of redirects: converting the POST (at least one 301/302/303), preserving it (307/308 only), endless.
+		// At the far end a POST gets the body spelled sp.Sp, any other method a perfectly good answer.
+		codes, withBody := sp.hops()
+		cs.chainBody = withBody
+		cs.finalPost = spellBody(cs.spec.API, sp.Sp, pr.Content, sp.K)
+		cs.finalElse = spellBody(cs.spec.API, "canon", pr.Content, 0)
+		if sp.Cls == "loop" {
+			cs.loop = codes[0]
+		} else {
+			cs.chain = codes[1:]
 		}
-	case "bad200":
-		body = "<html>try again</html>"
-		switch sp.Var {
-		case "empty":
-			body = ""
-		case "trunc":
-			body = okBody[:len(okBody)-3]
+		pr.Code = codes[0]
+		resp, body = cs.hop(req, codes[0], hdr)
+		if follows(w.hc) && sp.Cls == "pres" {
+			pr.Code, body = 200, cs.finalPost
 		}
-		resp = mkResp(req, 200, hdr, bytes.NewReader([]byte(body)))
 	case "neterr":
 		// transport errors; the caller's context is alive in all of them.  The wrap* variants have the shape of
 		// net/http's Client.Timeout / per-request deadline errors: they satisfy errors.Is(err, context.DeadlineExceeded)
@@ -288,16 +435,14 @@ func (w *world) RoundTrip(req *http.Request) (*http.Response, error) {
 		default:
 			err = errors.New("scripted: connection refused")
 		}
-	case "redir":
-		hdr.Set("Location", "/redirected")
-		resp = mkResp(req, code, hdr, bytes.NewReader(nil))
 	default: // s408 s429 s503 other
 		body = fmt.Sprintf("status %d for caller %d request %d", code, cs.caller, cs.next)
 		resp = mkResp(req, code, hdr, bytes.NewReader([]byte(body)))
 	}
 	pr.Body = body
 	cs.rec.Posts = append(cs.rec.Posts, pr)
-	w.emit(map[string]any{"ev": "Post", "c": cs.caller, "t": t, "cls": pr.Cls, "rak": pr.Rak, "rav": pr.Rav, "code": pr.Code})
+	wk, wsp := sp.wire()
+	w.emit(map[string]any{"ev": "Post", "c": cs.caller, "t": t, "cls": pr.Cls, "w": wk, "sp": wsp, "rak": pr.Rak, "rav": pr.Rav, "code": pr.Code})
 	w.mu.Unlock()
 	w.poke()
 	return resp, err
@@ -315,15 +460,71 @@ type nullLogger struct{}
 func (nullLogger) Printf(string, ...interface{}) {}
 
 type genericRsp struct {
-	V int `json:"v"`
+	V int    `json:"v"`
+	S string `json:"s"`
+	B []byte `json:"b"`
+}
+
+// newHTTPClient builds the http.Client of configuration hc over the scripted transport; for "nil" the client gets no
+// http.Client at all and the scripted transport stands in for http.DefaultTransport while the scenario runs.
+func newHTTPClient(hc string, w *world) (*http.Client, func()) {
+	restore := func() {}
+	switch hc {
+	case "nil":
+		old := http.DefaultTransport
+		http.DefaultTransport = w
+		return nil, func() { http.DefaultTransport = old }
+	case "", "plain":
+		return &http.Client{Transport: w}, restore
+	case "follow": // a policy of the caller's own that lets redirects pass (it would log them, say)
+		return &http.Client{Transport: w, CheckRedirect: func(req *http.Request, via []*http.Request) error {
+			if len(via) >= 20 {
+				return errors.New("caller's policy: stopped after 20 redirects")
+			}
+			return nil
+		}}, restore
+	case "limit": // a policy of the caller's own that bounds the hops
+		return &http.Client{Transport: w, CheckRedirect: func(req *http.Request, via []*http.Request) error {
+			if len(via) >= 5 {
+				return fmt.Errorf("caller's policy: stopped after %d redirects", len(via))
+			}
+			return nil
+		}}, restore
+	case "jar":
+		jar, err := cookiejar.New(nil)
+		if err != nil {
+			panic(err)
+		}
+		return &http.Client{Transport: w, Jar: jar}, restore
+	case "timeout": // never reached: the scripted server answers in zero time
+		return &http.Client{Transport: w, Timeout: time.Hour}, restore
+	case "uselast":
+		return &http.Client{Transport: w, CheckRedirect: func(*http.Request, []*http.Request) error { return http.ErrUseLastResponse }}, restore
+	case "refuse":
+		return &http.Client{Transport: w, CheckRedirect: func(*http.Request, []*http.Request) error {
+			return errors.New("caller's policy: no redirects")
+		}}, restore
+	}
+	panic("harness: unknown http.Client configuration " + hc)
 }
 
 // RunScenario executes one scenario in a fresh bubble (virtual clock) on a fresh client.
 func RunScenario(t *testing.T, sc Scenario) *Run {
 	run := &Run{}
 	synctest.Test(t, func(t *testing.T) {
-		w := &world{epoch: time.Now(), run: run, act: make(chan struct{}, 1)}
-		lc, err := client.New("http://log.example.com/base/", &http.Client{Transport: w}, jsonclient.Options{Logger: nullLogger{}})
+		hc := sc.HC
+		if hc == "" {
+			hc = "plain"
+		}
+		run.HC = hc
+		w := &world{hc: hc, epoch: time.Now(), run: run, act: make(chan struct{}, 1)}
+		httpClient, restore := newHTTPClient(hc, w)
+		defer restore()
+		opts := jsonclient.Options{Logger: nullLogger{}}
+		if sc.Opts == "ua" {
+			opts.UserAgent, opts.Authorization = "verif-c13/1.0", "Bearer c13"
+		}
+		lc, err := client.New("http://log.example.com/base/", httpClient, opts)
 		if err != nil {
 			t.Fatal(err)
 		}
@@ -402,6 +603,7 @@ func (w *world) oneCall(lc *client.LogClient, caller int, cspec CallSpec) {
 	w.mu.Unlock()
 	var err error
 	var sct *ct.SignedCertificateTimestamp
+	generic := false
 	func() {
 		defer func() {
 			if r := recover(); r != nil {
@@ -419,8 +621,16 @@ func (w *world) oneCall(lc *client.LogClient, caller int, cspec CallSpec) {
 			var hr *http.Response
 			var body []byte
 			hr, body, err = lc.PostAndParseWithRetry(ctx, fmt.Sprintf("/caller/%d", caller), map[string]int{"x": caller}, &rsp)
-			if err == nil && (hr == nil || hr.StatusCode != 200 || string(body) != okGeneric || rsp.V != 7) {
-				err = fmt.Errorf("harness: success without the parsed 200 response (rsp=%+v body=%q)", rsp, body)
+			if err == nil {
+				// the content of the response the submission succeeded with: the last exchange of the script
+				w.mu.Lock()
+				var last PostRec
+				if np := len(rec.Posts); np > 0 {
+					last = rec.Posts[np-1]
+				}
+				w.mu.Unlock()
+				want := genericRsp{V: 7 + last.Content, S: genS, B: genB}
+				generic = hr != nil && hr.StatusCode == 200 && string(body) == last.Body && reflect.DeepEqual(rsp, want)
 			}
 		}
 	}()
@@ -430,7 +640,14 @@ func (w *world) oneCall(lc *client.LogClient, caller int, cspec CallSpec) {
 		rec.Res = "other:panic"
 	case err == nil:
 		rec.Res = "ok"
-		rec.SCTOK = cspec.API == "post" || (sct != nil && sct.Timestamp == sctTimestamp)
+		// success means: with the content of the good 200 response, whatever its spelling
+		rec.SCTOK = generic
+		if np := len(rec.Posts); cspec.API != "post" && sct != nil && np > 0 {
+			rec.SCTOK = sct.SCTVersion == ct.V1 && bytes.Equal(sct.LogID.KeyID[:], sctID) &&
+				sct.Timestamp == uint64(sctTimestamp+rec.Posts[np-1].Content) && len(sct.Extensions) == 0 &&
+				int(sct.Signature.Algorithm.Hash) == 4 && int(sct.Signature.Algorithm.Signature) == 3 &&
+				bytes.Equal(sct.Signature.Signature, sctSigBody)
+		}
 	case errors.As(err, &re):
 		rec.Res = "status"
 		rec.Status = re.StatusCode
